@@ -596,6 +596,28 @@ Definition attr_form (p : bytes) : Prop :=
   p = skipn 2 A_SECURE \/ p = skipn 2 A_HTTPONLY \/
   p = skipn 2 A_SAMESITE ++ w_lax \/ p = skipn 2 A_SAMESITE ++ w_strict.
 
+(** HTTPChannel.writeHeaders called directly with the documented backwards-compatibility form of [headers]: an iterable
+    of (name, value) pairs.  They go through a fresh Headers() with addRawHeader first - a name that is not a token is
+    refused before anything reaches the transport - and then the head is written as usual. *)
+Fixpoint pairs_table (ps : list (text * text)) (t : table) : res table :=
+  match ps with
+  | [] => Good t
+  | (n, v) :: r =>
+      match enc_name n with
+      | Bad e => Bad e
+      | Good k => match enc_value v with
+                  | Bad e => Bad e
+                  | Good b => pairs_table r (tbl_add k [san b] t)
+                  end
+      end
+  end.
+
+Definition write_headers_pairs (c : cfg) (code : N) (reason : bytes) (ps : list (text * text)) : res bytes :=
+  match pairs_table ps [] with
+  | Bad e => Bad e
+  | Good t => Good (emit_head c code reason t)
+  end.
+
 (** HTTPChannel.writeHeaders as it is at the pinned commit (reason phrase copied verbatim): finding F6 *)
 Definition emit_head_unrepaired (c : cfg) (code : N) (reason : bytes) (t : table) : bytes :=
   version_bytes c ++ [32] ++ to_dec code ++ [32] ++ reason ++ CRLF
